@@ -126,9 +126,11 @@ def analyse_one(args):
                 else:
                     notes.append(f"{f}: different computation for the single value; agrees on all witness valuations - undecided")
         # long input: the single value is a function of the trailing warm-up window
-        rl = IR.run_indicator(repo, rel, fn, NL, False, warmup=W, overrides=over)
+        # (an indicator that slices with the literal 240 instead of helpers.slice_candles is analysed at the real window size)
+        w_, nl_ = (240, 250) if any(isinstance(x, ast.Constant) and x.value == 240 for x in ast.walk(fn)) else (W, NL)
+        rl = IR.run_indicator(repo, rel, fn, nl_, False, warmup=w_, overrides=over)
         if rl[0] == "ok":
-            old = (1 << (NL - W)) - 1
+            old = (1 << (nl_ - w_)) - 1
             for f, b in IR.fields_of(rl[1]):
                 if isinstance(b, D) and (b.m & old):
                     probs.append((f, "reads-before-warmup-window", f"field '{f}': on a long input the single value depends on candles older than the trailing warm-up window (input not sliced)"))
